@@ -5,7 +5,7 @@ cd /repo || exit 2
 if ! git diff --quiet; then echo "/repo is dirty"; exit 2; fi
 git apply "$P" || { echo "patch does not apply"; exit 2; }
 for id in "$@"; do
-  out=$(cd /verif && ./bin/sa check $id --verif /tmp/trypatch_out 2>&1); code=$?
+  cp /verif/known_findings.json /tmp/trypatch_out/ 2>/dev/null; out=$(cd /verif && ./bin/sa check $id --verif /tmp/trypatch_out 2>&1); code=$?
   echo "[$id] exit=$code"; echo "$out" | grep -E "^  C|VIOLATION|UNDECIDED" | head -8
 done
 git checkout -- . ; git status --short | head -3
